@@ -4,6 +4,7 @@
 package world
 
 import (
+	"time"
 	"database/sql"
 	"fmt"
 	"io"
@@ -343,6 +344,8 @@ type AgentReq struct {
 	Headers map[string]string
 	Body    []byte
 	Peer    string // ip:port
+	// SlowBody > 0: the body arrives in two halves with this (virtual) pause between them
+	SlowBody time.Duration
 }
 
 func (w *World) nextPeer() string {
@@ -367,6 +370,9 @@ func (w *World) buildRequest(r AgentReq) *http.Request {
 		Method: method, URL: u, Proto: "HTTP/1.1", ProtoMajor: 1, ProtoMinor: 1,
 		Header: http.Header{}, Host: "c2.example.com", RequestURI: uri,
 		Body: io.NopCloser(strings.NewReader(string(r.Body))), ContentLength: int64(len(r.Body)),
+	}
+	if r.SlowBody > 0 {
+		req.Body = simrt.NewSlowBody(r.Body, r.SlowBody)
 	}
 	for k, v := range r.Headers {
 		req.Header[http.CanonicalHeaderKey(k)] = []string{v}
